@@ -292,6 +292,17 @@ def run(ctx):
             ctx.fail('format raised ' + type(e).__name__, t, observed=repr(e)[:200], required='formatted text')
     for c in streams.corpus('C10'):
         check_spaces(ctx, c['input'])
+    # statements that are large in one dimension (the property has no size bound)
+    for t in gen.scale_texts(rng):
+        if ctx.quick() and len(t) > 12000:
+            continue
+        try:
+            check_stripws(ctx, t)
+            check_spaces(ctx, t)
+            check_reindent(ctx, t, rng.choice([{'reindent': True}, {'reindent': True, 'comma_first': True}, {'reindent': True, 'wrap_after': 40}]))
+        except Exception as e:
+            ctx.fail('format raised ' + type(e).__name__, t, observed=repr(e)[:200], required='formatted text')
+        ctx.count('scale texts')
     clause_cases(ctx)
     operator_cases(ctx)
     whitespace_cases(ctx)
